@@ -3,6 +3,8 @@ import CedarVerif.Lemmas.TpeQuery
 import CedarVerif.Lemmas.TpeSound4
 import CedarVerif.Lemmas.TpeDecision
 import CedarVerif.Lemmas.TpeQuerySound
+import CedarVerif.Lemmas.TpeValidTotal
+import CedarVerif.Thm.C03
 /-
 C14 — type-aware partial evaluation and permission queries are sound.  Property theorems only
 (helpers: Lemmas/Tpe*.lean).  Model: Cedar/Tpe.lean (`Residual`, `interpret`, `Tpe.Response`, views, `reauthorize`, queries).
@@ -21,13 +23,26 @@ C14 — type-aware partial evaluation and permission queries are sound.  Propert
     `ErrFreeSound` on the `&&` / `||` nodes.
   * `tpe_decision_sound`: `interpret_sound` + `tpe_table_sound`: a definite TPE decision is the concrete decision on every
     completion (this is the `hsound` of `query_exact` / `query_action_sound`).
-  * NOT proved: `TypeSafe` of the typed expression from C03's typechecker soundness (the TPE model takes the typed
-    expression as an input; C03's `typeOf_sound_strict` is a statement about the top-level result of `typeOf`, the per-node
-    version needs its induction re-run with the stronger invariant); the passage `Residual → Expr` of the real
-    `reauthorize` (a `Concrete` residual is re-parsed as `Value → Expr`); differential runs cover both.
+  * FROM VALIDATION (C03), Lemmas/TpeValid*.lean: the typed expression the model receives is `te.erase` for the typed AST
+    `te = Level.annotate .strict s env cond []` of the Rust typechecker (`typed.into_expr()` in harness/src/c14.rs; `annotate`
+    is C16's mirror of the AST `typecheck` hands back, incl. its short-circuit simplifications).  `Valid.annot_typeSafe`
+    re-runs C03's induction over `annotate` with the per-node invariant "the node's residual evaluates like the node
+    (`Level.annot_res`) and the node is `Good` (`soundM`): a value of its static type or an entity / overflow / extension
+    error — never a type error": the residual `try_from_typed_expr` builds is `TypeSafe` on every conformant request / store.
+    Hence `TypedSafe`, `TypedAgrees` (with EQUAL results) and `CondsBool` are THEOREMS for validated policies
+    (`Valid.valid_typedSafe` / `valid_typedAgrees` / `valid_condsBool`), `tpe::is_authorized` does not fail on them
+    (`Valid.valid_isAuthorized_some`), and `tpe_decision_sound_valid`, `query_resource_exact_valid`,
+    `query_principal_exact_valid`, `query_action_sound_valid` below carry VALIDATION-LEVEL hypotheses only: `SchemaWF2 s`;
+    `ValidTyped s env tps` (every policy is static, inside the strict fragment, accepted by `checkPolicy .strict` in every
+    environment — C03's `strict_validation_sound_static` premises — and its typed condition is `annotate`'s for `env`);
+    `env` is the unlinked request environment of the partial request; the completion is `Conformant` (C11 `ConformsRequest`,
+    `StoreConforms`; C03 `ActionsPresent`) and `Completes` the partial inputs.  The older theorems are kept.
+  * NOT proved: the passage `Residual → Expr` of the real `reauthorize` (a `Concrete` residual is re-parsed as
+    `Value → Expr`); that Rust's typed AST IS `annotate` (the C16 differential run diffs the level checker's verdict computed
+    from `annotate` against Rust; C14's run feeds the model Rust's own typed expression) — differential runs cover both.
 -/
 namespace Cedar.C14
-open Cedar Cedar.Tpe
+open Cedar Cedar.Tpe Cedar.Tpe.Valid
 
 /-- **tpe_table_sound** (full, combinatorial; the table of `tpe::Response::new` is `Cedar.Table.decide`, the same five
 rows as C13's).  For an arbitrary response (any list of residual policies) and every concrete request / store on which
@@ -401,5 +416,105 @@ theorem query_principal_exact (tps : List TPolicy) (ctx : List (String × Value)
         (by intro x hx; simp only [PUid.uid?, Option.map_some, Option.some.injEq] at hx; rw [← hx])
         (candidates_ty hu) rfl rfl (by intro c hc; simp only [Option.some.injEq] at hc; exact hc))
       (hT u hu) (hE u hu)).2 d hd)
+
+/-! ### the same theorems from VALIDATION-level hypotheses (C03), Lemmas/TpeValid*.lean -/
+
+/-- **tpe_decision_sound_valid**: `tpe_decision_sound` with `TypedSafe` / `TypedAgrees` DERIVED from C03's strict soundness.
+For strictly valid static policies `tps` whose typed conditions are the typechecker's typed AST for the request environment
+`env` of the partial request (`ValidTyped`, `EnvOfPartial`), on EVERY conformant completion of the partial inputs: every
+residual policy sits in a bucket consistent with the outcome of its original, and a definite TPE decision is the decision
+of the concrete authorizer over the input policies. -/
+theorem tpe_decision_sound_valid (s : Schema) (hWF : C03.SchemaWF2 s) (env : RequestEnv)
+    (preq : Tpe.PRequest) (pes : Tpe.PEntities) (tps : List TPolicy) (resp : Tpe.Response)
+    (h : Tpe.isAuthorized preq pes tps = some resp) (hV : ValidTyped s env tps) (hE : EnvOfPartial s env preq)
+    (req : Request) (es : Entities) (hC : Completes preq pes req es) (hq : Conformant s req es) :
+    (∀ rp, rp ∈ resp.residuals → rp.residual.cls.Consistent (rp.original.outcome req es)) ∧
+    (∀ d, resp.decision = some d → (Cedar.isAuthorized req es (tps.map (·.policy))).decision = d) :=
+  tpe_decision_sound preq pes tps resp h req es hC (valid_typedSafe hWF hV hq (hE.envOf hC))
+    (valid_typedAgrees hWF hV hq (hE.envOf hC))
+
+/-- **tpe_total_valid**: on validated static policies `tpe::is_authorized` answers (no `TpeError`), and the typed policies
+exist for the environment of every conformant request (`policy_residual_map` does not fail at the typechecking step). -/
+theorem tpe_total_valid (s : Schema) (env : RequestEnv) :
+    (∀ (tps : List TPolicy), ValidTyped s env tps → env.principalSlot = none → env.resourceSlot = none →
+      ∀ preq pes, ∃ resp, Tpe.isAuthorized preq pes tps = some resp) ∧
+    (∀ (p : Policy) (q : Request), ValidStatic s p → EnvOf s env q → Cedar.ConformsRequest s q →
+      ∃ tp, typedPolicy s env p = some tp ∧ tp.policy = p ∧ IsTypedFor s env tp) := by
+  refine ⟨fun tps hV hp hr preq pes => valid_isAuthorized_some hV hp hr preq pes, ?_⟩
+  intro p q hv he hreq
+  obtain ⟨tp, htp⟩ := hv.typedPolicy_some he hreq
+  exact ⟨tp, htp, typedPolicy_isTypedFor htp⟩
+
+/-- **query_resource_exact_valid / query_principal_exact_valid**: the queries return exactly the candidates the concrete
+authorizer allows — for strictly valid static policies typed for the environment of the query, a conformant store holding
+the action entities, and conformant candidate requests.  No semantic hypothesis. -/
+theorem query_resource_exact_valid (s : Schema) (hWF : C03.SchemaWF2 s) (env : RequestEnv)
+    (tps : List TPolicy) (ctx : List (String × Value)) (es : Entities)
+    (principal action : EntityUID) (rty : EntityType) (us : List EntityUID)
+    (h : queryResource tps principal action rty ctx es = some us) (hV : ValidTyped s env tps)
+    (hE : EnvOfPartial s env ⟨⟨principal.ty, some principal.eid⟩, action, ⟨rty, none⟩, some ctx⟩)
+    (hst : StoreConforms s es) (hact : C03.ActionsPresent s es)
+    (hreq : ∀ u, u ∈ candidates es rty → ConformsRequest s ⟨principal, action, u, ctx⟩) :
+    ∀ u, u ∈ us ↔ u ∈ candidates es rty ∧
+      (Cedar.isAuthorized ⟨principal, action, u, ctx⟩ es (tps.map (·.policy))).decision = .allow :=
+  query_resource_exact tps ctx es principal action rty us h
+    (fun u hu => valid_typedSafe hWF hV ⟨hreq u hu, hst, hact⟩ (hE.envOf_types rfl rfl (candidates_ty hu)))
+    (fun u hu => valid_typedAgrees hWF hV ⟨hreq u hu, hst, hact⟩ (hE.envOf_types rfl rfl (candidates_ty hu)))
+
+theorem query_principal_exact_valid (s : Schema) (hWF : C03.SchemaWF2 s) (env : RequestEnv)
+    (tps : List TPolicy) (ctx : List (String × Value)) (es : Entities)
+    (pty : EntityType) (action resource : EntityUID) (us : List EntityUID)
+    (h : queryPrincipal tps pty action resource ctx es = some us) (hV : ValidTyped s env tps)
+    (hE : EnvOfPartial s env ⟨⟨pty, none⟩, action, ⟨resource.ty, some resource.eid⟩, some ctx⟩)
+    (hst : StoreConforms s es) (hact : C03.ActionsPresent s es)
+    (hreq : ∀ u, u ∈ candidates es pty → ConformsRequest s ⟨u, action, resource, ctx⟩) :
+    ∀ u, u ∈ us ↔ u ∈ candidates es pty ∧
+      (Cedar.isAuthorized ⟨u, action, resource, ctx⟩ es (tps.map (·.policy))).decision = .allow :=
+  query_principal_exact tps ctx es pty action resource us h
+    (fun u hu => valid_typedSafe hWF hV ⟨hreq u hu, hst, hact⟩ (hE.envOf_types (candidates_ty hu) rfl rfl))
+    (fun u hu => valid_typedAgrees hWF hV ⟨hreq u hu, hst, hact⟩ (hE.envOf_types (candidates_ty hu) rfl rfl))
+
+/-- **query_action_sound_valid**: `query_action_sound` with its soundness premise discharged: for an action `a` of the list,
+whose policies are validated and typed for `a`'s environment `env`, and every conformant completion: if the completion is
+allowed, `a` is returned; if `a` is labelled definitely allowed, the completion is allowed. -/
+theorem query_action_sound_valid (s : Schema) (hWF : C03.SchemaWF2 s) (acts : List (EntityUID × List TPolicy))
+    (p r : PUid) (ctx : Option (List (String × Value))) (pes : Tpe.PEntities)
+    (a : EntityUID) (tps : List TPolicy) (resp : Tpe.Response) (ha : (a, tps) ∈ acts)
+    (hr : Tpe.isAuthorized ⟨p, a, r, ctx⟩ pes tps = some resp) (env : RequestEnv) (hV : ValidTyped s env tps)
+    (hE : EnvOfPartial s env ⟨p, a, r, ctx⟩)
+    (req : Request) (es : Entities) (hC : Completes ⟨p, a, r, ctx⟩ pes req es) (hq : Conformant s req es) :
+    ((Cedar.isAuthorized req es (tps.map (·.policy))).decision = .allow → (a, resp.decision) ∈ queryAction acts p r ctx pes) ∧
+    (resp.decision = some .allow → (Cedar.isAuthorized req es (tps.map (·.policy))).decision = .allow) :=
+  (query_action_sound acts p r ctx pes).1 a tps resp ha hr _
+    (fun d hd => (tpe_decision_sound_valid s hWF env _ pes tps resp hr hV hE req es hC hq).2 d hd)
+
+/-- non-vacuity of the `…_valid` theorems: C03's example schema (`entity User in [Group] {…} tags String; action view …`),
+the static condition `principal in resource && principal.hasTag("team") && principal.getTag("team") like "b*"`, the world of
+C03's example as the completion of a partial request whose principal id is unknown and an empty partial store: every
+hypothesis of `tpe_decision_sound_valid` holds, and TPE answers. -/
+example :
+    let p : Policy := ⟨"p0", .permit, C03.ex2Static, []⟩
+    let env : RequestEnv := ⟨"User", ⟨"Action", "view"⟩, "Group", C03.ex2View.context, none, none⟩
+    let preq : Tpe.PRequest := ⟨⟨"User", none⟩, ⟨"Action", "view"⟩, ⟨"Group", some "admins"⟩, some [("level", .prim (.int 3))]⟩
+    C03.SchemaWF2 C03.ex2Schema ∧ ValidStatic C03.ex2Schema p ∧ EnvOfPartial C03.ex2Schema env preq ∧
+    Completes preq [] C03.ex2World.q C03.ex2World.es ∧ Conformant C03.ex2Schema C03.ex2World.q C03.ex2World.es ∧
+    ∃ tp resp, tp.policy = p ∧ ValidTyped C03.ex2Schema env [tp] ∧ Tpe.isAuthorized preq [] [tp] = some resp := by
+  intro p env preq
+  have hv : ValidStatic C03.ex2Schema p := ⟨rfl, fun _ => rfl, ⟨_, rfl, rfl⟩⟩
+  have hE : EnvOfPartial C03.ex2Schema env preq := ⟨rfl, rfl, rfl, ⟨C03.ex2View, rfl, rfl⟩, rfl, rfl⟩
+  have hC : Completes preq [] C03.ex2World.q C03.ex2World.es :=
+    ⟨fun u hu => by simp [preq, PUid.uid?] at hu, fun u hu => by simp only [preq, PUid.uid?, Option.map_some, Option.some.injEq] at hu; rw [← hu]; rfl,
+     rfl, rfl, rfl, fun c hc => by simp only [preq, Option.some.injEq] at hc; rw [← hc]; rfl,
+     fun u a h => (by rw [show PEntities.attrs? ([] : Tpe.PEntities) u = none from rfl] at h; cases h),
+     fun u a h => (by rw [show PEntities.ancestors? ([] : Tpe.PEntities) u = none from rfl] at h; cases h),
+     fun u a h => (by rw [show PEntities.tags? ([] : Tpe.PEntities) u = none from rfl] at h; cases h)⟩
+  have hq : Conformant C03.ex2Schema C03.ex2World.q C03.ex2World.es := ⟨C03.ex2_request, C03.ex2_store, C03.ex2_actions⟩
+  refine ⟨C03.ex2_schemaWF, hv, hE, hC, hq, ?_⟩
+  obtain ⟨tp, htp⟩ := hv.typedPolicy_some (hE.envOf hC) hq.req
+  obtain ⟨hp, hty⟩ := typedPolicy_isTypedFor htp
+  have hV : ValidTyped C03.ex2Schema env [tp] :=
+    ⟨fun x hx => by rw [List.mem_singleton] at hx; rw [hx, hp]; exact hv, fun x hx => by rw [List.mem_singleton] at hx; rw [hx]; exact hty⟩
+  obtain ⟨resp, hresp⟩ := valid_isAuthorized_some hV rfl rfl preq []
+  exact ⟨tp, resp, hp, hV, hresp⟩
 
 end Cedar.C14
